@@ -114,6 +114,7 @@ type rt struct {
 	srcNil     bool
 	stall      map[int64]bool // free mode: nodes whose first call blocks until released
 	slow       map[int64]bool // free mode: slow consumers (a short sleep per call)
+	failPct    uint64         // free mode: percentage of calls that fail (default 16)
 	stallCh    chan struct{}
 	srcEnded   chan struct{}
 	script     []srcPhase // free mode: per incarnation
